@@ -23,6 +23,7 @@ Round 6: assert statements are read as python -O reads them and an unbound local
 buffer).
 Round 7: (v) a handler around a child parse that goes on without re-raising, for an exception class
 some reader raises; a strategy installed only for the end-of-string marker may read len(raw).
+Round 8: (the strict-decode rule per strategy is shared with C03 and C14).
 """
 import ast
 
